@@ -343,6 +343,23 @@ impl Scenario for Quiesce {
         }
         w.bootstrap_full();
         const OP_QUIET: usize = 1_000_000;
+        const OP_RETRY: usize = 1_000_001;
+        let retry_every = p.wc.cfg.periodic_announce.as_ref().map(|x| x.frequency.as_nanos() as u64).unwrap_or(0).max(2 * p.wc.cfg.probe_period.as_nanos() as u64);
+        let mut retries = 0usize;
+        fn bootstrap_retry(w: &mut World, out: &mut RunOut, round: usize) {
+            let live = w.live_addrs();
+            for a in &live {
+                let o = &w.proc(*a).unwrap().obs;
+                if o.num_members == 0 || !o.connected() {
+                    let others: Vec<u16> = live.iter().filter(|b| *b != a).copied().collect();
+                    if !others.is_empty() {
+                        let dst = w.id_of(others[round % others.len()]);
+                        w.call(*a, Input::Announce(dst));
+                        out.stats.inc("c05_quiesce_bootstrap_retry");
+                    }
+                }
+            }
+        }
         let mut t_quiet = (p.duration_ms + 1) * MS;
         w.schedule_op(t_quiet, OP_QUIET);
         let period = p.wc.cfg.probe_period.as_nanos() as u64;
@@ -382,18 +399,17 @@ impl Scenario for Quiesce {
                             w.spawn(a, gen);
                         }
                     }
-                    // idle instances retry their bootstrap announce, as any agent does
-                    let live = w.live_addrs();
-                    for a in &live {
-                        let o = &w.proc(*a).unwrap().obs;
-                        if o.num_members == 0 || !o.connected() {
-                            let to = live.iter().find(|b| *b != a).copied();
-                            if let Some(to) = to {
-                                let dst = w.id_of(to);
-                                w.call(*a, Input::Announce(dst));
-                                out.stats.inc("c05_quiesce_bootstrap_retry");
-                            }
-                        }
+                    // idle instances retry their bootstrap announce, as any agent does on Idle / at start-up
+                    // (again every announce period for as long as they stay idle: an instance may still lose
+                    // its last member to the faults of a moment ago)
+                    bootstrap_retry(&mut w, &mut out, 0);
+                    w.schedule_op(w.now + retry_every, OP_RETRY);
+                }
+                Err(OP_RETRY) => {
+                    retries += 1;
+                    bootstrap_retry(&mut w, &mut out, retries);
+                    if w.now < t_quiet + bound {
+                        w.schedule_op(w.now + retry_every, OP_RETRY);
                     }
                 }
                 Err(i) => match &ops[i].1 {
